@@ -49,6 +49,8 @@ func (e *ifExpr) SubMergers(subs []Expr) []SubMerge {
 		if e.String() == sub.String() {
 			sms[i] = e.subMerge
 			matched = true
+			// only merge from the first matching sub
+			break
 		}
 	}
 	if matched {
